@@ -123,61 +123,48 @@ example : keptIdx [true, true, false, true] (some [true, false, true, true]) 0 =
 
 /-! ### AND / OR -/
 
-/-- The engine's AND / OR on one row: operate on the data bits, result NULL iff an operand is NULL
-    (`boolNode` = BoolAnd / BoolOr + combine_nulls). `none` = NULL. -/
-def engineAnd : Option Bool → Option Bool → Option Bool
-  | some a, some b => some (a && b)
-  | _, _ => none
-def engineOr : Option Bool → Option Bool → Option Bool
-  | some a, some b => some (a || b)
-  | _, _ => none
+/-- One cell of a (possibly nullable) boolean buffer: (data bit, known). `none` = NULL. -/
+def cellOf (x : Bool × Bool) : Option Bool := if x.2 then some x.1 else none
 
 def cellVal : Option Bool → Val
   | none => .null
   | some b => .int (if b then 1 else 0)
 
-/-- Is the specification's value TRUE? -/
-def evTrue : Ev → Bool
-  | .val (.int i) => i != 0
-  | _ => false
+/-- The engine's AND / OR on one row (`boolNode`): the data bytes are and-ed / or-ed, the result is known
+    according to `KleeneNullMap` (kleene_null_map.rs). -/
+def engineCell (isOr : Bool) (x y : Bool × Bool) : Bool × Bool :=
+  (if isOr then x.1 || y.1 else x.1 && y.1, kleeneKnown isOr x.2 x.1 y.2 y.1)
 
-/-- `boolNode` computes `engineAnd` / `engineOr` cell by cell (both operands boolean buffers of a common length). -/
+/-- `boolNode` computes `engineCell` cell by cell (both operands boolean buffers). -/
 theorem C03_and_or_model (isOr : Bool) (l r : Out) (hl : l.ty.decoded = .boolean) (hr : r.ty.decoded = .boolean) :
     ∃ out, boolNode isOr l r = .ok out
       ∧ out.data = .bits (if isOr then orBits (bitsOf l.data) (bitsOf r.data) else andBits (bitsOf l.data) (bitsOf r.data))
-      ∧ out.present = combinePresent l.present r.present ∧ out.ty.decoded = .boolean := by
+      ∧ out.present = (if l.present.isSome || r.present.isSome
+          then some (kleenePresent isOr (bitsOf l.data) l.present (bitsOf r.data) r.present) else none)
+      ∧ out.ty.decoded = .boolean := by
   simp [boolNode, hl, hr, boolTy]
 
-/-- AND: a row is kept by the engine's AND iff the Kleene AND of the operands is TRUE — for all operands,
-    including NULLs (the engine's NULL where Kleene says FALSE is not observable by a filter). -/
-theorem C03_and_or (x y : Option Bool) :
-    (engineAnd x y == some true) = evTrue (evalAnd (cellVal x) (cellVal y)) := by
-  cases x with
-  | none => cases y with
-    | none => rfl
-    | some b => cases b <;> rfl
-  | some a => cases y with
-    | none => cases a <;> rfl
-    | some b => cases a <;> cases b <;> rfl
+/-- AND, OR combine as usual: for ALL operand cells — TRUE, FALSE, NULL, and whatever data byte lies under a NULL —
+    the engine's AND / OR cell is exactly the Kleene AND / OR of the operand cells
+    (`TRUE OR NULL = TRUE`, `FALSE AND NULL = FALSE`, otherwise NULL if an operand is NULL). -/
+theorem C03_and_or (x y : Bool × Bool) :
+    evalAnd (cellVal (cellOf x)) (cellVal (cellOf y)) = .val (cellVal (cellOf (engineCell false x y)))
+    ∧ evalOr (cellVal (cellOf x)) (cellVal (cellOf y)) = .val (cellVal (cellOf (engineCell true x y))) := by
+  obtain ⟨a, ka⟩ := x
+  obtain ⟨b, kb⟩ := y
+  cases a <;> cases ka <;> cases b <;> cases kb <;> exact ⟨rfl, rfl⟩
 
-/-- The full statement for OR (what the property demands): the engine's OR is TRUE exactly when Kleene's is. -/
-def C03_or_statement : Prop :=
-  ∀ x y : Option Bool, (engineOr x y == some true) = evTrue (evalOr (cellVal x) (cellVal y))
+/-- `NULL OR x` with a Null-typed operand (column absent from the partition): TRUE where x is TRUE, NULL elsewhere. -/
+theorem C03_or_null_operand (x : Bool × Bool) :
+    evalOr .null (cellVal (cellOf x)) = .val (cellVal (cellOf (x.1, kleeneKnown true x.2 x.1 false false)))
+    ∧ evalOr (cellVal (cellOf x)) .null = .val (cellVal (cellOf (x.1, kleeneKnown true x.2 x.1 false false))) := by
+  obtain ⟨a, ka⟩ := x
+  cases a <;> cases ka <;> exact ⟨rfl, rfl⟩
 
-/-- OR, partial: if no operand is NULL the engine's OR is exactly Kleene's OR. -/
-theorem C03_or_partial (a b : Bool) :
-    evalOr (cellVal (some a)) (cellVal (some b)) = .val (cellVal (engineOr (some a) (some b))) := by
-  cases a <;> cases b <;> rfl
-
-/-- OR, refuted (open finding C03-and-or-null): `NULL OR TRUE` is TRUE, the engine yields NULL and drops the row.
-    Witness on the real code: `n < 10 OR id > 5` on rows whose `n` is NULL. -/
-theorem C03_or_refuted : ¬ C03_or_statement := by
-  intro h
-  have := h none (some true)
-  simp [engineOr, cellVal, evalOr, boolVal, evTrue] at this
-
-example : engineOr none (some true) = none ∧ evTrue (evalOr (cellVal none) (cellVal (some true))) = true := by
-  constructor <;> rfl
+example : cellOf (engineCell true (true, false) (true, true)) = some true   -- NULL (garbage data 1) OR TRUE = TRUE
+    ∧ cellOf (engineCell true (true, false) (false, true)) = none           -- NULL (garbage data 1) OR FALSE = NULL
+    ∧ cellOf (engineCell false (true, false) (false, true)) = some false := by  -- NULL AND FALSE = FALSE
+  decide
 
 /-! ### The assembled theorem -/
 
@@ -185,9 +172,9 @@ example : engineOr none (some true) = none ∧ evTrue (evalOr (cellVal none) (ce
     For every partition (column images of any of the modelled encodings: plain / cast / offset-encoded integers,
     plain / dictionary-encoded strings, nullable or not, or absent), every table length and every predicate `e` of the
     supported fragment `Frag` — comparisons (all six operators, either operand order) of a column with ANY constant of
-    its type, IS [NOT] NULL, AND / NOT without restriction, OR of operands that cannot be NULL — whenever the engine
-    model answers with rows (`implFilter … = ok idx`; error values delimit the fragment), these are exactly the
-    positions of the rows the Kleene specification keeps, in table order.
+    its type, int/int and string/string column pairs, IS [NOT] NULL, and AND / OR / NOT trees of any depth — whenever
+    the engine model answers with rows (`implFilter … = ok idx`; error values delimit the fragment, e.g. NOT of a
+    nullable operand), these are exactly the positions of the rows the Kleene specification keeps, in table order.
     Proof: induction on the predicate with the invariant `C03W.Inv` (cell-exact for non-nullable buffers, TRUE-exact for
     nullable ones), using `C03_enc_cmp_int`, `C03_enc_cmp_str`, `C03_null_cmp`, `C03_and_or`, `C03_filter_apply`. -/
 theorem C03_where (fp : FP) (part : Part) (rows : List Row) (hlen : part.len = rows.length) (e : Expr)
@@ -203,7 +190,7 @@ theorem C03_where_const (fp : FP) (part : Part) (rows : List Row) (c : Int) :
     implFilter fp part (.lit (.int c)) = .ok (if c = 0 then [] else List.range part.len)
     ∧ filterRows fp.i2f (some (.lit (.int c))) rows = .ok (if c = 0 then [] else rows) := by
   constructor
-  · by_cases hc : c = 0 <;> simp [implFilter, compile, whereFilter, scalarTy, hc]
+  · by_cases hc : c = 0 <;> simp [implFilter, compile, whereFilter, scalarTy, hc, sharedStrLiteral, strCmpLits]
   · induction rows with
     | nil => by_cases hc : c = 0 <;> simp [filterRows, hc]
     | cons r rs ih =>
@@ -220,42 +207,42 @@ example : ∃ keep : Row → Bool, [0, 2] = idxTrue (Ex.rows.map keep) 0
     ∧ filterRows Ex.fp.i2f (some Ex.pred) Ex.rows = .ok (Ex.rows.filter keep) :=
   C03_where Ex.fp Ex.part Ex.rows rfl Ex.pred Ex.frag [0, 2] Ex.impl
 
-/-- The fragment without the restriction on OR. -/
-inductive FragFull (fp : FP) (part : Part) (rows : List Row) : Expr → Prop where
-  | atom (e : Expr) : Atom fp part rows e → FragFull fp part rows e
-  | and (l r : Expr) : FragFull fp part rows l → FragFull fp part rows r → FragFull fp part rows (.and l r)
-  | or (l r : Expr) : FragFull fp part rows l → FragFull fp part rows r → FragFull fp part rows (.or l r)
-  | not (e : Expr) : FragFull fp part rows e → FragFull fp part rows (.not e)
+/-- Regression witness of the former finding C03-and-or-null (DESIGN §8 #2): on the example partition (c1 = 3, NULL, 100)
+    `c1 < 10 OR id > 0` keeps all three rows — row 1 has `NULL OR TRUE = TRUE` — in the engine model and in the
+    specification (before fix of the AND/OR null maps the model, like the real code, kept rows 0 and 2 only). -/
+theorem C03_or_null_witness :
+    implFilter Ex.fp Ex.part (.or (.cmp .lt (.col 1) (.lit (.int 10))) (.cmp .gt (.col 0) (.lit (.int 0)))) = .ok [0, 1, 2]
+    ∧ filterRows Ex.fp.i2f (some (.or (.cmp .lt (.col 1) (.lit (.int 10))) (.cmp .gt (.col 0) (.lit (.int 0))))) Ex.rows
+        = .ok Ex.rows := by
+  constructor
+  · simp only [implFilter, compile, Ex.ref0, Ex.ref1]
+    rfl
+  · rfl
 
-/-- The full-strength statement of the property on the model (OR unrestricted). -/
-def C03_where_statement : Prop :=
-  ∀ (fp : FP) (part : Part) (rows : List Row), part.len = rows.length → ∀ e, FragFull fp part rows e →
-    ∀ idx, implFilter fp part e = .ok idx →
-      ∃ keep : Row → Bool, idx = idxTrue (rows.map keep) 0 ∧ filterRows fp.i2f (some e) rows = .ok (rows.filter keep)
+/-! ### Panics -/
 
-/-- Refutation of the full statement (open finding C03-and-or-null, DESIGN §8 #2): on the example partition
-    `c1 < 10 OR id > 0` — the specification keeps all three rows (row 1: NULL OR TRUE = TRUE), the engine model keeps
-    rows 0 and 2 only.  The same witness fails on the real code (harness corpus class `corpus:or-null`). -/
-theorem C03_where_refuted : ¬ C03_where_statement := by
+/-- Full statement: a predicate of the fragment never makes the engine panic. -/
+def C03_no_panic_statement : Prop :=
+  ∀ (fp : FP) (part : Part) (rows : List Row), part.len = rows.length → ∀ e, Frag fp part rows e →
+    implFilter fp part e ≠ .error .panic
+
+/-- Partial: inside the fragment the engine model panics only when one string literal is compared both with a
+    dictionary-coded column and with a decoded (packed) string column of the same partition
+    (`sharedStrLiteral`, the executor defect of the open finding C03-shared-str-const-panic). `encode_int`,
+    `encode_str`, `int_to_float_cast(..).unwrap()` and the operators themselves never panic there. -/
+theorem C03_no_panic_partial (fp : FP) (part : Part) (rows : List Row) (hlen : part.len = rows.length) (e : Expr)
+    (hf : Frag fp part rows e) (hs : sharedStrLiteral part e = false) : implFilter fp part e ≠ .error .panic := by
   intro h
-  let e : Expr := .or (.cmp .lt (.col 1) (.lit (.int 10))) (.cmp .gt (.col 0) (.lit (.int 0)))
-  have hf : FragFull Ex.fp Ex.part Ex.rows e :=
-    FragFull.or _ _ (FragFull.atom _ (Atom.intRight .lt 1 10 Ex.col1 _ Ex.ref1 Ex.intCol1))
-      (FragFull.atom _ (Atom.intRight .gt 0 0 Ex.col0 _ Ex.ref0 Ex.intCol0))
-  have himpl : implFilter Ex.fp Ex.part e = .ok [0, 2] := by
-    simp only [implFilter, compile, e, Ex.ref0, Ex.ref1]
-    rfl
-  obtain ⟨kp, h1, h2⟩ := h Ex.fp Ex.part Ex.rows rfl e hf [0, 2] himpl
-  have hspec : filterRows Ex.fp.i2f (some e) Ex.rows = .ok Ex.rows := by
-    rfl
-  rw [hspec] at h2
-  have hl := idxTrue_length Ex.rows kp 0
-  rw [← h1] at hl
-  have : (Ex.rows.filter kp).length = 3 := by
-    have := congrArg (fun r => match r with | Res.ok l => l.length | _ => 0) h2
-    simpa [Ex.rows] using this.symm
-  rw [this] at hl
-  simp at hl
+  rw [panic_only_shared fp part rows hlen e hf h] at hs
+  cases hs
+
+/-- Refuted (open finding C03-shared-str-const-panic): `c2 = 'a' AND c1 <> 'a'` with `c1` dictionary-coded and `c2`
+    packed — the planner's common-subexpression cache shares the ScalarStr buffer of 'a' between InverseDictLookup and a
+    streaming comparison; QueryExecutor::partition then unwraps `operator::buffer`'s error for a ScalarStr buffer.
+    Witness on the real code: harness corpus class `corpus:shared-literal`. -/
+theorem C03_no_panic_refuted : ¬ C03_no_panic_statement := by
+  intro h
+  exact h Ex2.fp Ex2.part Ex2.rows rfl Ex2.pred Ex2.frag Ex2.impl
 
 /-! ### Translation tie: the hand-written registry equals the table extracted from query_plan.rs on this run -/
 
